@@ -2,7 +2,7 @@
 from checks import oracles
 from checks.conc_check import run_conc
 from checks.durable_check import replay_execution
-from checks.executor_common import STRICT, c10
+from checks.executor_common import STRICT, c10, c10_no_function_under_completed_context
 
 
 def model_extra(ctx, execs):
@@ -21,11 +21,35 @@ def model_extra(ctx, execs):
         raise MachineryError(f"probe FixAncestorWalk=FALSE: expected NoDescendantAfterParentDone to fail, got ok={res.ok} {res.violated}")
 
 
+def resume_vs_completion(ctx, execs):
+    """a surviving branch is resumed by the timer thread (its step / condition is READY) at about the moment the call completes early:
+    every offset of the deciding sibling's end around the resume"""
+    import random
+    from checks.durable_common import run_campaign
+    rng = random.Random(ctx.seed + 1010)
+    items = []
+    for d in [round(0.86 + 0.02 * k, 2) for k in range(0, 18, (2 if ctx.quick else 1))]:
+        for body in ([{"k": "wfc", "polls": 3, "delay": 1}, {"k": "step"}], [{"k": "step", "fail": 2, "max": 3, "delay": 1}, {"k": "step"}]):
+            p = {"nodes": [{"k": "par", "cfg": {"min": 1}, "branches": [[{"k": "step", "dur": d}], body]}, {"k": "step", "dur": 1.5}, {"k": "step"}]}
+            for rep in range(2 if ctx.quick else 6):
+                items.append((p, {"seed": rng.randrange(1 << 30), "max_inv": 12, "api_latency": (0.05, 0.0)[rep % 2],
+                                  "strategy": "pct" if rep % 2 else "random"}))
+            # the worker that re-traverses the surviving branch is descheduled right after it starts (<= 0.5 virtual s): the call
+            # completes in between, and the branch reaches its READY operation as an orphan
+            items.append((p, {"seed": rng.randrange(1 << 30), "max_inv": 12, "api_latency": 0.05,
+                              "slow_after": {"start": {"ev": "BodyStart", "i": 2}, "nth": 2}}))
+    out = run_campaign(ctx, items)
+    for e in out:
+        c10(ctx, e)
+        c10_no_function_under_completed_context(ctx, e)
+    model_extra(ctx, execs)
+
+
 def run(ctx):
-    run_conc(ctx, invs=STRICT["C10"], oracle_fns=[c10],
+    run_conc(ctx, invs=STRICT["C10"], oracle_fns=[c10, c10_no_function_under_completed_context],
              programs=["m02_first_successful", "m03_failure", "m07_min_with_failure", "m08_nested", "m11_tolerance", "m01_all_ok",
                        "m16_ctx_fails_with_straggler", "m17_reinvoke_early_completion"],
-             post=model_extra,
+             post=resume_vs_completion,
              n_scen=(8, 20),
              extra_rule="Early-completion configurations with surviving branches inside a user function (function durations), between "
                         "operations, about to start a new operation or a nested map. Oracle on the backend's update stream: no update whose "
